@@ -10,7 +10,7 @@ CHECKS = {
         "design_ref": "§3 C08, §2.4",
         "technique": "explicit-state BFS over StreamReader operation histories (real object) vs byte-queue model",
         "text": "Every history up to the depth bound over a 24-op producer/consumer alphabet is executed on the real StreamReader+BaseProtocol; "
-                "conservation, EOF ordering, chunk-boundary truthfulness and the pause/resume invariants are checked after every step in every reachable canonical state.",
+                "conservation, EOF ordering, chunk-boundary truthfulness and the pause/resume invariants are checked after every step in every reachable canonical state. Back-pressure is also an invariant at rest (a resume whose held-back data refills the buffer must leave the transport paused).",
         "note": TRUST + " Alphabet: feeds {b'',1,2,2 with LF,5 bytes}, chunk begin/end, eof, set_exception, unread_data, 12 read APIs; limits {1,2,4}; parser-held data modelled by a stash fed on resume.",
     },
 }
@@ -31,7 +31,7 @@ CHECKS["C03"] = {
     "technique": "exhaustive cut enumeration (all 1-cuts, 2-cuts, byte-at-a-time, all 2^(n-1) for n<=12) vs the un-cut run",
     "text": "For each stream of the request corpus (baselines, every single mutation, limit-approach inputs incl. pipelined ones) and a response corpus, under "
             "equal, unequal and tiny-buffer limit configurations, every segmentation of the stated classes is fed to the real parser followed by feed_eof and "
-            "compared field by field with the un-cut run: verdict, limit verdict, messages, bodies, chunk ends, tail.",
+            "compared field by field with the un-cut run: verdict, limit verdict, messages, bodies, chunk ends, tail. After a body that the parser failed without raising, the continuation must not depend on segmentation either; responses at their limits under CRLF / LF / CR CR LF endings.",
     "note": TRUST + " Oracle is the un-cut run of the same implementation; payload streams are drained after every feed so a paused parser is resumed.",
 }
 CHECKS["C10"] = {
@@ -40,7 +40,7 @@ CHECKS["C10"] = {
     "technique": "exhaustive stream/cut/limit enumeration with exception-class, limit, retained-bytes and call-count monitors",
     "text": "All corpus streams x all single cuts x limit configs, hostile request-targets, limit-1/limit/limit+1 inputs in every syntactic position, response corpus with byte "
             "mutations: only HttpProcessingError may leave the parsers, over-limit inputs are rejected and within-limit ones are not, retained bytes are bounded after every "
-            "feed, call counts grow linearly on doubling families, and the real server/client protocol turn errors into 400 / client errors without anything escaping.",
+            "feed, call counts grow linearly on doubling families, and the real server/client protocol turn errors into 400 / client errors without anything escaping. Every limit case and the trailer section's field rules also go through the real server with a body-reading and a non-reading handler (protocol error => 400).",
     "note": TRUST + " Work is measured as Python call events on enumerated families only; a field's size is the length of its whole line.",
 }
 
@@ -50,7 +50,7 @@ CHECKS["C07"] = {
     "technique": "deviation-bounded exhaustive schedule exploration of the real BaseConnector on a virtual event loop",
     "text": "N=2..3 (4 in thorough) client tasks x host maps x (limit, limit_per_host) x waiter-queue order run the real connect()/release()/close() on a virtual loop; "
             "every schedule with at most d deviations (attempt failure, alternative release mode, cancel of any task, connector.close(), several events in one pass, timer first) "
-            "is executed; a harness ledger is compared with the limits and the connector's own sets after every pass, and lost wake-ups, leaks and close() effects are checked at quiescence.",
+            "is executed; a harness ledger is compared with the limits and the connector's own sets after every pass, and lost wake-ups, leaks and close() effects are checked at quiescence. Also with client tracing whose callbacks really suspend (every connection trace point is then an await point) and an orphaned-connection oracle (every transport created is closed or pooled once all requests ended).",
     "note": TRUST + " _create_connection awaits a harness future; waiter shuffle is identity or reversal; bound d=2 quick, 3 thorough.",
 }
 
@@ -61,7 +61,7 @@ CHECKS["C05"] = {
     "text": "About 70 scenarios (pipelines of 1..40 requests with and without bodies, hostile inputs, 9 handler behaviours) run a real web.Application behind a real RequestHandler "
             "on the in-memory wire; every schedule with at most d deviations (inbound segmentation, write buffer full/flush, peer close/reset at any pass, timer before I/O, "
             "several events per pass) is executed.  An independent framer cuts the server's output; order, count, well-formedness, 4xx+close for unparsable input, the queue bound, "
-            "no escaping exception, no loop-handler call and 'no open connection with an unanswered request and an idle handler' (at every quiescent point) are checked.",
+            "no escaping exception, no loop-handler call and 'no open connection with an unanswered request and an idle handler' (at every quiescent point) are checked. Also: 34/70 sequential requests whose bodies arrive late on one connection (history), handlers that fail or swap the response after the head is out, upgrade requests carrying a body that are declined.",
     "note": TRUST + " d=2 quick, 3 thorough (1/2 on the 31..40-deep pipelines).",
 }
 
@@ -75,7 +75,7 @@ CHECKS["C06"] = {
             "unsolicited/partial/garbage bytes while idle, late 1xx, truncation, close, close-delimited) x a 7-point connection-key lattice run a real ClientSession on the "
             "in-memory wire; every schedule with at most d deviations (when the peer answers, how its bytes are cut, when stray bytes / FIN / reset arrive relative to release and "
             "re-acquisition, cancel) is executed.  Peers stamp each response with the id read from the request line on that connection: a caller never sees another stamp, a "
-            "connection that saw stray bytes / FIN / reset is never handed out again, and keys never share a transport.",
+            "connection that saw stray bytes / FIN / reset is never handed out again, and keys never share a transport. Also: the head of a response cut from its body (so the body ends in the same read as a surplus response) and Expect: 100-continue answered by a final response.",
     "note": TRUST + " d=2 quick, 3 thorough. Stray bytes that reach the client only after the next request already owns the connection are indistinguishable from its answer and are not counted.",
 }
 
@@ -86,7 +86,7 @@ CHECKS["C16"] = {
     "text": "Every history up to the depth bound over Set-Cookie ops (a base cookie with up to two varied dimensions out of response host, Domain, Path, response path, Secure, "
             "expiry form, name - 157 to 400 ops), clock ticks, clear, clear_domain, save+load and mutating filter_cookies calls is executed on the real CookieJar; in every "
             "reachable canonical state (reference store + all jar side tables) 50 request URLs (5 related hosts x 2 schemes x 5 paths) are queried and compared with an "
-            "independent RFC 6265 store: no value the reference would not send (host-only, domain, path, Secure, expiry, foreign-domain acceptance), none missing.",
+            "independent RFC 6265 store: no value the reference would not send (host-only, domain, path, Secure, expiry, foreign-domain acceptance), none missing. Paths with repeated trailing slashes and malformed Max-Age combined with Expires are part of the dimensions.",
     "note": TRUST + " Set-Cookie enters through update_cookies_from_headers (the ClientSession path); clock = aiohttp.cookiejar.time rebound; no public-suffix list; "
             "when several same-named cookies match, the jar's single value must be one of the reference's.",
 }
@@ -100,7 +100,7 @@ CHECKS["C14"] = {
             "resources (nested once) and domain / mask-domain sub-applications are built on a real web.Application; each is queried with 199 raw request paths "
             "(percent-encoded, empty and repeated segments) x GET/POST/PUT (x 7 Host values) through the real request parser and UrlDispatcher.resolve and compared with the "
             "documented rule computed from the template text: handler, match_info, 404 vs 405 and the allowed set.  url_for o resolve = identity over 16 parameter values per "
-            "variable (also under mounted prefixes), and every normalize_path_middleware redirect over all <=3-4 token targets from a 12-token alphabet stays on-site.",
+            "variable (also under mounted prefixes), and every normalize_path_middleware redirect over all <=3-4 token targets from a 12-token alphabet stays on-site. All queries of a table run on one long-lived router; an answer that differs from a fresh router's is reported as history-dependent.",
     "note": TRUST + " quick caps the pair/triple sections at the stated pools (reported as pools, not caps); a mounted sub-application claims its subtree and a matching domain "
             "sub-application is final, as the code documents.",
 }
@@ -113,7 +113,7 @@ CHECKS["C12"] = {
             "form, one token per violation class of the statement, sizes max-1/max/max+1, compressed and decompression-bomb tokens) and up to 3 (4 in thorough) over a "
             "core alphabet, for 5-7 (compress, decode_text, max_msg_size) configurations, are fed to the real reader whole, under every single cut, every pair of cuts "
             "and byte-at-a-time.  Messages up to the first violation, the close code, 'nothing delivered after the error', independence of segmentation and the "
-            "retained-bytes bound are checked on every run.",
+            "retained-bytes bound are checked on every run. The application's view is taken through the queue's read path (prompt and late consumer, with and without end of connection), and 1300-frame histories on one reader check that nothing accumulates from frame to frame.",
     "note": TRUST + " The protocol object behind the data queue is a pause/resume stub; non-minimal length encodings and mask direction are not judged; "
             "for a corrupt deflate stream any error is accepted (no code is specified).",
 }
@@ -127,7 +127,7 @@ CHECKS["C11"] = {
             "the real WebSocketReader whole, under every single cut / byte-at-a-time (<=160 bytes) or all structural cuts.  conc: 2-3 sender tasks share one writer; "
             "executor completions of large compressed frames and cancellation of any sender at any loop pass are environment events, every schedule with <= d "
             "deviations is run; the reader must deliver without error an interleaving that keeps each task's order, contains every message whose send returned, "
-            "and nothing that was not sent.",
+            "and nothing that was not sent. Also: per-message compress override between messages of the shared context, senders that start later, and an executor model in which the job runs at submission and only its completion is delivered later.",
     "note": TRUST + " d=2 quick, 3 thorough. Executor jobs complete atomically when delivered; a job whose awaiting task was cancelled still runs (its result is dropped), as a "
             "started thread would. Masks come from a fixed-seed Random.",
 }
@@ -143,7 +143,7 @@ CHECKS["C20"] = {
             "keep-alive, partial head, pending body, handler finishing / never finishing / shielding, streaming response, pipelined request, slow on_shutdown hook, "
             "peer reset) where runner.cleanup() may start at any loop pass; every schedule with <= d deviations; the shutdown timeline (nothing new accepted, idle "
             "connections closed at once, released handlers finish uncancelled, nothing survives 2x timeout, all transports closed and cleanup() returned in time) is "
-            "judged in virtual time.",
+            "judged in virtual time. Also application trees nested 2-3 levels (and a nested one beside a flat sibling) with every assignment of failures.",
     "note": TRUST + " d=2 quick, 3 thorough. loop.create_server is a socket-less fake; _run_app is stopped by cancelling its task; reverse order is judged per application; "
             "'at once' = within 6 loop passes; the clock never advances while callbacks are queued in the shutdown section.",
 }
@@ -174,7 +174,7 @@ CHECKS["C04"] = {
             "web.Application or MultipartWriter down to transport.write; an independent splitter on CRLF, bare CR and bare LF must see the benign message's line "
             "structure, or nothing of the supplied text may be written.  writer: BFS over all sequences up to depth 4 (6) of 9 StreamWriter ops x 6 framing modes; "
             "the bytes after the head must chunk-decode / inflate to exactly what was written, one terminator, nothing after it.  sizes: 10 payload classes x 8 "
-            "sizes x read offsets, 0-3 part multiparts incl. non-ASCII part headers, FormData variants: size == bytes written, Content-Length on the wire == body.",
+            "sizes x read offsets, 0-3 part multiparts incl. non-ASCII part headers, FormData variants: size == bytes written, Content-Length on the wire == body. The writer BFS includes declared-length modes (body on the wire == written[:length]).",
     "note": TRUST + " A server-side refusal is a clean 500 that carries none of the supplied text; the Date field is masked; set_eof() is excluded from the compressed "
             "writer modes and nothing is written after an end-of-message op (documented contract).",
 }
@@ -189,7 +189,7 @@ CHECKS["C19"] = {
             "and fed to a real StreamReader under every single cut and byte-at-a-time (<= 400 bytes) or every cut within 6 bytes of a boundary and at the chunk "
             "thresholds, and read back through read(decode), read_chunk(64 / 8192)+decode, readline and release; parts, headers, names, filenames and content must "
             "equal the input, size must equal the bytes written.  termination: every single-byte deletion, duplication, substitution (6 symbols) and truncation of 5 "
-            "small bodies x 3 reading modes must end in parts or an error within the step horizon.  limits: header size/count and client_max_size cases x cuts.",
+            "small bodies x 3 reading modes must end in parts or an error within the step horizon.  limits: header size/count and client_max_size cases x cuts. Also partial consumption: one readline()/read_chunk() then next(), nested readers skipped or left half-read; forms with the _charset_ field; every ordered pair of part encodings.",
     "note": TRUST + " Contents that contain the delimiter at a line start are not valid multipart material and are excluded; a name or filename may come back "
             "percent-encoded if it decodes to the original; every reader run is under a wall-clock deadline (a loop becomes a violation).",
 }
@@ -218,7 +218,7 @@ CHECKS["C17"] = {
             "the requests it receives through the independent RFC 9112 reader.  Judged per hop: caller Authorization / Cookie / Proxy-Authorization / cookies= only "
             "while the whole chain stayed on the first origin (no resurrection on A->B->A), Location credentials only on their own origin, jar cookies re-selected "
             "for the hop's host, method and body per the documented table, request count vs max_redirects, refusal of non-HTTP targets, history order, every "
-            "connection released.",
+            "connection released. Also 3xx responses without Location (first hop, behind a redirect, at the max_redirects boundary).",
     "note": TRUST + " A redirect chain is sequential, so the default schedule is the only schedule; TLS is not modelled (an https origin is a distinct connection key).",
 }
 
@@ -248,7 +248,7 @@ CHECKS["C18"] = {
             "pool queue or the in-flight DNS lookup, plus healthy exchanges; every schedule with <= d deviations over DNS/TCP completion order, I/O, the clock and "
             "cancellation of the stalled request at any loop pass (alone, or together with a new request to the same host in the same pass).  Judged: timeout error "
             "within the bound (+1 s when ceiled) in the phases the kind covers, connection closed and never reused, pool counters and waiters back to zero, no task "
-            "left, sibling and follow-up requests answered.",
+            "left, sibling and follow-up requests answered. Also a shared DNS lookup answered in the same loop iteration as the cancellation of its other waiter.",
     "note": TRUST + " d=1 quick, 2 thorough. Real TCPConnector with a scripted resolver; aiohttp.connector.aiohappyeyeballs.start_connection and create_connection are "
             "rebound to the in-memory wire; the clock never advances while callbacks are queued.",
 }
@@ -264,7 +264,7 @@ CHECKS["C02"] = {
             "compression; explicit length; force_close; custom reason; repeated headers; HTTP/1.0 client) against a canonical request.  Both ends are real; the "
             "bytes of each direction are delivered whole, up to the head end or next line, 1 byte or 2048 bytes at a time, and every schedule with <= d "
             "deviations is run.  What the handler saw must equal what was issued, what the caller got must equal what was returned, both ends must agree on "
-            "keep-alive at rest, and a second request on the session must be answered.",
+            "keep-alive at rest, and a second request on the session must be answered. Also client options (read_bufsize, sock_read) with idle time before the second request.",
     "note": TRUST + " d=1 quick, 2 thorough. Repeated field lines are compared in their combined form (the parser's headers mapping joins them); file bodies come "
             "from scratch temp files without kernel sendfile; handlers that the API refuses (chunked on HTTP/1.0, chunked FileResponse) are not in the grammar.",
 }
